@@ -80,6 +80,10 @@ THOROUGH_PROGRAMS = {
                                       dict(seed=2, steps=['log', 'send', 'log'])], sym=2, clocks=['tempo']),
     'beats-other-sym': dict(routines=[dict(seed=1, steps=['log', 'beats', 'log']),
                                       dict(seed=2, steps=['log', 'send', 'log'])], sym=2, clocks=['tempo']),
+}
+# programs whose RT exploration under arbitrary wake-up latency did not finish within 40 minutes on 16 cores: kept for
+# reference, not part of any tier (VF_C10_HEAVY=1 adds them to the thorough tier)
+HEAVY_PROGRAMS = {
     'three': dict(routines=[dict(seed=1, steps=['send', 'log']), dict(seed=2, steps=['log', 'log']),
                             dict(seed=3, steps=['rand', 'send'])]),
     'two-senders-3': dict(routines=[dict(seed=3, steps=['log', 'send', 'log']),
@@ -229,7 +233,7 @@ def flat_log(log):
 
 
 def spec_of(j):
-    return (PROGRAMS.get(j['prog']) or THOROUGH_PROGRAMS[j['prog']])
+    return (PROGRAMS.get(j['prog']) or THOROUGH_PROGRAMS.get(j['prog']) or HEAVY_PROGRAMS[j['prog']])
 
 
 # ------------------------------------------------------------------ NRT
@@ -699,6 +703,10 @@ def main(tier, seed):
     progs = dict(PROGRAMS)
     if tier != 'quick':
         progs.update(THOROUGH_PROGRAMS)
+        import os
+        if os.environ.get('VF_C10_HEAVY'):
+            sel = os.environ['VF_C10_HEAVY'].split(',')
+            progs.update({k: v for k, v in HEAVY_PROGRAMS.items() if sel == ['1'] or k in sel})
     jobs = []
     for name, spec in progs.items():
         for ck in spec.get('clocks', ['sys', 'tempo']):
